@@ -367,7 +367,7 @@ static void run_client(void)
 
 #define MAXCONN 3
 enum { H_NOW, H_LATER, H_AT_TEARDOWN, H_CHUNKED_LATER_END, H_BIG_NOW, NHPLANS };
-static const char *hnames[] = { "reply-now", "reply-later", "reply-at-teardown", "chunked-end-later", "big-reply-now" };
+static const char *hnames[] = { "reply-now", "reply-later", "reply-at-teardown", "chunked-end-later", "big-reply-now" };   /* big = 24 kB against a 4 kB send buffer */
 enum { SF_NONE, SF_PAUSE, SF_EOF, SF_CLOSE, NSFAULTS };
 static const char *sfnames[] = { "-", "pause", "eof", "close" };
 
@@ -377,7 +377,7 @@ static struct evhttp *s_http;
 static int s_hplan, s_handler_calls, s_max;
 #define MAXPENDING 8
 static struct { struct evhttp_request *req; int started; } s_pending[MAXPENDING]; static int s_npending;
-static char *s_big; static size_t s_biglen = 300000;
+static char *s_big; static size_t s_biglen;
 
 static void s_reply(struct evhttp_request *req)
 {
@@ -442,12 +442,14 @@ static int count_responses(const struct hc_buf *b, int eof, int *garbage)
 static void run_server(void)
 {
 	static const char reqbytes[] = "GET /x HTTP/1.1\r\nHost: h\r\n\r\n";
-	int maxc = mc_choose(3, 0, "max-connections");
+	int mmask = mc_param("maxcmask", 7), ml[3], nm = 0;
+	for (int i = 0; i < 3; i++) if (mmask >> i & 1) ml[nm++] = i;
+	int maxc = ml[mc_choose(nm, 0, "max-connections")];
 	int nconn = 1 + mc_choose(mc_param("maxconn", MAXCONN), 0, "connections");
 	int hplan = mc_choose(NHPLANS, 0, "handler-plan");
 	int second = mc_choose(2, 0, "second-request-on-first-connection");
 	struct sockaddr_un sa; memset(&sa, 0, sizeof sa); sa.sun_family = AF_UNIX;
-	if (!s_big) { s_big = malloc(s_biglen); memset(s_big, 'x', s_biglen); }
+	if (!s_big) { s_biglen = (size_t)mc_param("big", 24000); s_big = malloc(s_biglen); memset(s_big, 0x78, s_biglen); }
 	s_hplan = hplan; s_handler_calls = 0; s_npending = 0; s_max = maxc;
 	mc_observe("server max=%d conns=%d %s second=%d: ", maxc, nconn, hnames[hplan], second);
 	MC_COUNT("server_scenarios");
@@ -462,6 +464,9 @@ static void run_server(void)
 		memset(s, 0, sizeof *s);
 		if (hc_socketpair(sv) < 0) { s->fd = -1; continue; }
 		s->fd = sv[1];
+		/* small send buffer on the server's socket: the 24 kB reply cannot be written in one go, so a
+		 * client that vanishes meets a reply that is still being written */
+		{ int sz = 4096; setsockopt(sv[0], SOL_SOCKET, SO_SNDBUF, &sz, sizeof sz); }
 		int before = evhttp_get_connection_count(s_http);
 		evhttp_get_request(s_http, sv[0], (struct sockaddr *)&sa, sizeof(sa_family_t), NULL);
 		int is_over = maxc && before >= maxc;
